@@ -9,7 +9,8 @@ Inductive helper :=
 | L_LayerVar (v : Z) | L_Servo (ms : Z) (st : option Z) | L_ServoV (va vb vc : Z) (ms : Z) (st : option Z)
 | E_XY (dx dy dur : Z) | E_Abs (rate : Z) (p1 p2 : option Z) | E_Pause (n : Z) | E_MotorsOff | E_MotorsOn (r1 r2 : Z)
 | E_Pen (up : bool) (delay : Z) (pin : option Z) | E_BConfig (pin state dir : Z) | E_BSet (pin state : Z)
-| E_PenPos (up : bool) (v : Z) | E_PenRate (up : bool) (v : Z) | E_Servo (ms : Z) (st : option Z) | E_Var (v i : Z) | E_ClearSteps | E_ClearAcc.
+| E_PenPos (up : bool) (v : Z) | E_PenRate (up : bool) (v : Z) | E_Servo (ms : Z) (st : option Z) | E_Var (v i : Z) | E_ClearSteps | E_ClearAcc
+| E_MotorsOnQ (r1 r2 q1 q2 : Z).     (* motors_enable against a board whose QE reply is q1,q2 (0, 1, 2, 4, 8, 16) *)
 
 Definition both (p1 p2 : option Z) : option (Z * Z) := match p1, p2 with Some a, Some b => Some (a, b) | _, _ => None end.
 (* what the model of the code emits *)
@@ -26,6 +27,7 @@ Definition model_emit (fx : bool) (h : helper) : list text :=
   | E_Pen up d p => e3_pen fx up d p | E_BConfig p s d => e3_dio_b_config p s d | E_BSet p s => e3_dio_b_set p s
   | E_PenPos up v => e3_pen_pos up v | E_PenRate up v => e3_pen_rate up v | E_Servo ms st => e3_servo_timeout ms st | E_Var v i => e3_var_write v i
   | E_ClearSteps => e3_clear_steps | E_ClearAcc => e3_clear_acc
+  | E_MotorsOnQ r1 r2 _ _ => [cat [T "EM,"; z (clamp05 r1); T ","; z (clamp05 r2)]]
   end.
 (* motors_enable as documented in its comments, against a board that reports both motors disabled (QE,0,0 - the harness's port):
    CU,50,0 first iff exactly one motor is requested; for a motor-2-only request the scale is read (QE) and set by EM,r2,r2
@@ -34,6 +36,15 @@ Definition doc_motors_on (r1 r2 : Z) : list text :=
   let c1 := clamp 0 5 r1 in let c2 := clamp 0 5 r2 in
   (if negb (c1 =? c2) && (c1 * c2 =? 0) then [T "CU,50,0"] else []) ++
   (if (c1 =? 0) && negb (c2 =? 0) then [T "QE"; commas [Td "EM"; sz c2; sz c2]] else []) ++
+  [commas [Td "EM"; sz c1; sz c2]].
+(* the same against a board in any motor state: QE reports 0 for a disabled motor and 1/2/4/8/16 (full .. 1/16 step) for an enabled
+   one; the scale in use is motor 1's entry if it is enabled, else motor 2's; the scale-setting EM,r2,r2 is sent iff it differs from r2 *)
+Definition res_of_qe (q : Z) : Z := if q =? 16 then 1 else if q =? 8 then 2 else if q =? 4 then 3 else if q =? 2 then 4 else if q =? 1 then 5 else 0.
+Definition doc_motors_on_q (r1 r2 q1 q2 : Z) : list text :=
+  let c1 := clamp 0 5 r1 in let c2 := clamp 0 5 r2 in
+  let old := if negb (res_of_qe q1 =? 0) then res_of_qe q1 else res_of_qe q2 in
+  (if negb (c1 =? c2) && (c1 * c2 =? 0) then [T "CU,50,0"] else []) ++
+  (if (c1 =? 0) && negb (c2 =? 0) then T "QE" :: (if old =? c2 then [] else [commas [Td "EM"; sz c2; sz c2]]) else []) ++
   [commas [Td "EM"; sz c1; sz c2]].
 (* what is documented *)
 Definition doc_of (h : helper) : list text :=
@@ -45,6 +56,7 @@ Definition doc_of (h : helper) : list text :=
   | L_Pen up d p | E_Pen up d p => doc (RqPen up d p) | L_BConfig p s => doc (RqBConfig p s 0) | E_BConfig p s d => doc (RqBConfig p s d)
   | L_BSet p s | E_BSet p s => doc (RqBSet p s) | L_Toggle => doc RqToggle | L_PenPos up v | E_PenPos up v => doc (RqPenPos up v)
   | L_PenRate up v | E_PenRate up v => doc (RqPenRate up v) | L_LayerVar v => doc (RqVarSet v None) | E_Var v i => doc (RqVarSet v (Some i))
+  | E_MotorsOnQ r1 r2 q1 q2 => doc_motors_on_q r1 r2 q1 q2
   | L_Servo ms st | E_Servo ms st => doc (RqServoTimeout ms st)
   (* legacy layer, against a board that reports firmware va.vb.vc: the version query, then the command only from 2.6.0 on *)
   | L_ServoV va vb vc ms st => T "V" :: (if ver_ge [va; vb; vc] [2; 6; 0] then doc (RqServoTimeout ms st) else []) | E_ClearSteps => doc RqClearSteps | E_ClearAcc => doc RqClearAcc
@@ -56,7 +68,7 @@ Fixpoint texts_eqb (a b : list text) : bool :=
    last_only: compare only the last line written (motors_enable's final EM) *)
 Inductive case06 := K06 (fx : bool) (h : helper) (impl : option (list text)).
 Definition last_only (h : helper) (w : list text) : list text :=
-  match h with E_MotorsOn _ _ => match rev w with x :: _ => [x] | [] => [] end | _ => w end.
+  match h with E_MotorsOn _ _ | E_MotorsOnQ _ _ _ _ => match rev w with x :: _ => [x] | [] => [] end | _ => w end.
 Definition check06 (c : case06) : Z :=
   match c with
   | K06 fx h None => 3
